@@ -27,6 +27,7 @@ Print Assumptions C02_buckets.
 Theorem C02_buckets_64 : forall universe,
   universe < 2 ^ 64 -> get_buckets universe 64 = Ok (if universe =? 0 then 0 else 1).
 Proof. exact get_buckets_64. Qed.
+Print Assumptions C02_buckets_64.
 
 (* the low part: IntVector::with_len(len, w, 0), set and get as a sequence of w-bit values *)
 Theorem C02_low_part : exists R : intvec -> N -> list N -> Prop,
